@@ -1,0 +1,239 @@
+//! Simulation seams for deterministic verification.
+//!
+//! This module only exists when the crate is compiled with
+//! `--cfg similar_verif`.  It is not part of the public API of the crate and
+//! does not change any behavior unless a harness explicitly installs a
+//! simulation context on the current thread:
+//!
+//! * a virtual clock consulted by `deadline_exceeded` / `duration_to_deadline`,
+//! * a seeded hasher configuration for the hash maps the crate creates,
+//! * reach counters (`hit`) and an iteration order observer,
+//! * the swap repair switch used to attribute a known finding.
+#![allow(missing_docs)]
+
+use std::cell::{Cell, RefCell};
+use std::collections::hash_map::RandomState;
+use std::hash::{BuildHasher, Hasher};
+use std::ops::{Deref, DerefMut};
+use std::time::Duration;
+
+use crate::deadline_support::Instant;
+
+/// A simulated clock.
+pub trait Clock {
+    /// Answers a deadline probe: has `deadline` passed?
+    fn exceeded(&mut self, deadline: Instant) -> bool;
+    /// Answers `now + add` (`None` if that overflows).
+    fn now_plus(&mut self, add: Duration) -> Option<Instant>;
+}
+
+/// Number of reach counters.
+pub const HITS: usize = 64;
+
+thread_local! {
+    static CLOCK: RefCell<Option<Box<dyn Clock>>> = RefCell::new(None);
+    static STRICT: Cell<bool> = Cell::new(false);
+    static NONE_PROBES: Cell<u64> = Cell::new(0);
+    static HASHER: Cell<Option<(u8, u64)>> = Cell::new(None);
+    static MAPS: Cell<u64> = Cell::new(0);
+    static HIT: RefCell<[u64; HITS]> = RefCell::new([0; HITS]);
+    static ORDER: Cell<u64> = Cell::new(0);
+    static SWAP_REPAIR: Cell<bool> = Cell::new(false);
+}
+
+/// Installs a clock for the current thread, returning the previous one.
+pub fn set_clock(clock: Option<Box<dyn Clock>>) -> Option<Box<dyn Clock>> {
+    CLOCK.with(|c| std::mem::replace(&mut *c.borrow_mut(), clock))
+}
+
+/// In strict mode a read of time without an installed clock panics.
+pub fn set_strict(yes: bool) {
+    STRICT.with(|s| s.set(yes));
+}
+
+/// Number of deadline probes made with no deadline (must never read a clock).
+pub fn none_probes() -> u64 {
+    NONE_PROBES.with(|c| c.get())
+}
+
+pub(crate) fn clock_exceeded(deadline: Option<Instant>) -> Option<bool> {
+    let deadline = match deadline {
+        Some(deadline) => deadline,
+        None => {
+            NONE_PROBES.with(|c| c.set(c.get() + 1));
+            return None;
+        }
+    };
+    CLOCK.with(|c| match &mut *c.borrow_mut() {
+        Some(clock) => Some(clock.exceeded(deadline)),
+        None => {
+            if STRICT.with(|s| s.get()) {
+                panic!("similar_verif: unsimulated time read (deadline probe)");
+            }
+            None
+        }
+    })
+}
+
+pub(crate) fn clock_now_plus(add: Duration) -> Option<Option<Instant>> {
+    CLOCK.with(|c| match &mut *c.borrow_mut() {
+        Some(clock) => Some(clock.now_plus(add)),
+        None => {
+            if STRICT.with(|s| s.get()) {
+                panic!("similar_verif: unsimulated time read (duration to deadline)");
+            }
+            None
+        }
+    })
+}
+
+/// Selects the hasher for maps created from now on by this thread.
+///
+/// `None` restores std's `RandomState`.  Kinds: 0 keyed SipHash, 1 constant
+/// (all items collide), 2 two bits of entropy, 3 bitwise-not of keyed SipHash,
+/// 4 keyed SipHash with the upper and lower half swapped.
+pub fn set_hasher(cfg: Option<(u8, u64)>) {
+    HASHER.with(|h| h.set(cfg));
+    MAPS.with(|m| m.set(0));
+}
+
+/// Number of maps created since the last `set_hasher`.
+pub fn maps_created() -> u64 {
+    MAPS.with(|m| m.get())
+}
+
+#[derive(Clone)]
+pub enum SimState {
+    Real(RandomState),
+    Sim(u8, u64),
+}
+
+pub enum SimHasher {
+    Real(<RandomState as BuildHasher>::Hasher),
+    Sim(u8, std::collections::hash_map::DefaultHasher),
+}
+
+impl BuildHasher for SimState {
+    type Hasher = SimHasher;
+
+    fn build_hasher(&self) -> SimHasher {
+        match self {
+            SimState::Real(state) => SimHasher::Real(state.build_hasher()),
+            SimState::Sim(kind, key) => {
+                #[allow(deprecated)]
+                let mut h = std::collections::hash_map::DefaultHasher::new();
+                h.write_u64(*key);
+                SimHasher::Sim(*kind, h)
+            }
+        }
+    }
+}
+
+impl Hasher for SimHasher {
+    fn write(&mut self, bytes: &[u8]) {
+        match self {
+            SimHasher::Real(h) => h.write(bytes),
+            SimHasher::Sim(_, h) => h.write(bytes),
+        }
+    }
+
+    fn finish(&self) -> u64 {
+        match self {
+            SimHasher::Real(h) => h.finish(),
+            SimHasher::Sim(kind, h) => {
+                let v = h.finish();
+                match kind {
+                    1 => 0,
+                    2 => (v & 3) << 57,
+                    3 => !v,
+                    4 => v.rotate_left(32),
+                    _ => v,
+                }
+            }
+        }
+    }
+}
+
+/// Stand-in for `std::collections::HashMap` with a simulator controlled hasher.
+pub struct HashMap<K, V>(std::collections::HashMap<K, V, SimState>);
+
+impl<K, V> HashMap<K, V> {
+    #[allow(clippy::new_without_default)]
+    pub fn new() -> HashMap<K, V> {
+        let state = match HASHER.with(|h| h.get()) {
+            Some((kind, key)) => {
+                let n = MAPS.with(|m| {
+                    let n = m.get();
+                    m.set(n + 1);
+                    n
+                });
+                SimState::Sim(
+                    kind,
+                    key.wrapping_add(n.wrapping_mul(0x9e37_79b9_7f4a_7c15)),
+                )
+            }
+            None => SimState::Real(RandomState::new()),
+        };
+        HashMap(std::collections::HashMap::with_hasher(state))
+    }
+}
+
+impl<K, V> Deref for HashMap<K, V> {
+    type Target = std::collections::HashMap<K, V, SimState>;
+
+    fn deref(&self) -> &Self::Target {
+        &self.0
+    }
+}
+
+impl<K, V> DerefMut for HashMap<K, V> {
+    fn deref_mut(&mut self) -> &mut Self::Target {
+        &mut self.0
+    }
+}
+
+impl<K, V> IntoIterator for HashMap<K, V> {
+    type Item = (K, V);
+    type IntoIter = std::collections::hash_map::IntoIter<K, V>;
+
+    fn into_iter(self) -> Self::IntoIter {
+        self.0.into_iter()
+    }
+}
+
+/// Counts that a branch of interest was reached.
+#[inline]
+pub fn hit(id: usize) {
+    HIT.with(|h| h.borrow_mut()[id] += 1);
+}
+
+/// Returns and resets the reach counters.
+pub fn take_hits() -> [u64; HITS] {
+    HIT.with(|h| std::mem::replace(&mut *h.borrow_mut(), [0; HITS]))
+}
+
+/// Folds one observed index into the iteration order digest.
+#[inline]
+pub fn observe_order(index: usize) {
+    ORDER.with(|o| {
+        o.set(
+            (o.get() ^ index as u64)
+                .wrapping_mul(0x0000_0100_0000_01b3)
+                .rotate_left(5),
+        )
+    });
+}
+
+/// Returns and resets the iteration order digest.
+pub fn take_order() -> u64 {
+    ORDER.with(|o| o.replace(0))
+}
+
+/// Turns the swap repair (attribution of a known finding) on or off.
+pub fn set_swap_repair(yes: bool) {
+    SWAP_REPAIR.with(|s| s.set(yes));
+}
+
+pub(crate) fn swap_repair() -> bool {
+    SWAP_REPAIR.with(|s| s.get())
+}
